@@ -123,14 +123,15 @@ def sim_check(prop, tier, seed, scenarios, spec, rule_filter, required_counters,
     # 1. exhaustive model checking of the abstract model (a failure here is a spec/tool error)
     mc_runs = []
     for (module, cfg) in (mc or {}).get(tier, []):
-        r = vlib.run_tlc(module, cfg, wd, workers=6, timeout=3000, capture_edges=False)
+        r = vlib.run_tlc_cached(module, cfg, wd, workers=6, timeout=3000)
         mc_runs.append({"module": module, "cfg": cfg, "distinct_states": r["stats"]["distinct"],
                         "generated": r["stats"]["generated"], "wall_s": r["stats"]["wall_s"],
-                        "action_coverage": r["stats"]["coverage"], "cmd": r["stats"]["cmd"]})
+                        "action_coverage": r["stats"]["coverage"], "cmd": r["stats"]["cmd"],
+                        "result_from_cache": r["stats"].get("from_cache", False), "computed_at": r["stats"].get("computed_at")})
     if tier == "thorough":
         for (module, cfg) in (mc or {}).get("must_fail", []):
             try:
-                vlib.run_tlc(module, cfg, wd, workers=4, timeout=600, capture_edges=False)
+                vlib.run_tlc_cached(module, cfg, wd, workers=4, timeout=600)
             except ToolError:
                 mc_runs.append({"module": module, "cfg": cfg, "self_test": "violated as required"})
                 continue
